@@ -67,9 +67,12 @@ type (
 	compiledModule struct {
 		*executables
 		// functionOffsets maps a local function index to the offset in the executable.
-		functionOffsets           []int
-		parent                    *engine
-		module                    *wasm.Module
+		functionOffsets []int
+		parent          *engine
+		module          *wasm.Module
+		// refCount counts the CompileModule calls for this module that have not been balanced by
+		// DeleteCompiledModule yet. Guarded by engine.mux.
+		refCount                  int
 		ensureTermination         bool
 		listeners                 []experimental.FunctionListener
 		listenerBeforeTrampolines []*byte
@@ -510,6 +513,10 @@ func (e *engine) DeleteCompiledModule(m *wasm.Module) {
 	defer e.mux.Unlock()
 	cm, ok := e.compiledModules[m.ID]
 	if ok {
+		if cm.refCount > 1 {
+			cm.refCount-- // still in use by another CompiledModule, e.g. of a runtime sharing the cache.
+			return
+		}
 		if len(cm.executable) > 0 {
 			e.deleteCompiledModuleFromSortedList(cm)
 		}
